@@ -556,7 +556,7 @@ func runVisibility(r *evid.Run) {
 				},
 			}}
 		}
-		states := map[string]struct{}{}
+		states := sched.StateSet{}
 		ex := &sched.Explorer{Mk: mk, MaxBound: bound, Stop: r.Expired, Horizon: 100000, States: states,
 			Check: func(x sched.Exec, _ *sched.Scenario) string {
 				cs := map[string]any{"kind": "visibility", "variant": variant, "choices": x.Choices}
